@@ -198,6 +198,8 @@ structure DSt where
   progNodes : List (Node Float) := []
   /-- the simulator was created / reset just before (so a finish starts from |0…0>) -/
   symFresh : Bool := false
+  /-- `rayon::current_num_threads()` as reported by the implementation -/
+  avail : Nat := 0
 
 structure Report where
   msgs : Array String := #[]
@@ -1063,7 +1065,22 @@ def step (st : DSt) (r : Report) (ln : Nat) (cmd obs : List String) : DSt × Rep
                             | "ok" :: _ :: _ :: n :: _ => if n == "-" then [] else n.splitOn ","
                             | _ => []) }
       (st, r)
+  | ["threads"] => ({ st with avail := (obs.head?.bind tokNat).getD 0 }, r)
+  | "par" :: _ =>
+    -- SPEC (C08): the same script with 1 and with k threads, repeated: bit-identical buffers
+    -- (sums to rounding)
+    (st, specCheck r st ln "c08.equal" (obs.head? == some "equal") "equal" (String.intercalate " " (obs.take 4)))
+  | "conc" :: _ =>
+    -- SPEC (C19): every call returned and every task's result equals the calls made alone
+    (st, specCheck r st ln "c19.conc" (obs.head? == some "ok") "ok" (String.intercalate " " (obs.take 4)))
   | ["qreg", n, thr] =>
+    let r := match tokNat thr with
+      | some k =>
+        if st.avail > 0 then
+          -- SPEC (C08): zero threads or more than the machine offers is refused
+          specCheck r st ln "c08.refuse" ((k == 0 || k > st.avail) == (obs == ["none"])) (if k == 0 || k > st.avail then "none" else "ok") (String.intercalate " " obs)
+        else r
+      | none => r
     match tokNat n, tokNat thr with
     | some n, some _ =>
       if obs == ["ok"] then ({ st with q := some (QReg.new n), implPsi := (QReg.new n : QReg Float).psi }, r)
